@@ -7,6 +7,7 @@ import (
 	"crypto/rsa"
 	"crypto/tls"
 	"crypto/x509"
+	"encoding/base64"
 	"fmt"
 	"strings"
 
@@ -468,4 +469,46 @@ func (n *Node) Walk(f func(parent, x *Node)) {
 		f(n, k)
 		k.Walk(f)
 	}
+}
+
+// EncRawCipher builds an EncryptedAssertion (to the SP) whose EncryptedData CipherValue is
+// replaced by nbytes arbitrary bytes: decryption of the data must fail (st = 1).
+func EncRawCipher(p *Node, nbytes int, fill byte) *Node {
+	cidCounter++
+	raw := encryptRaw([]byte(p.Render()), spKeyName)
+	doc := etree.NewDocument()
+	if err := doc.ReadFromString(raw); err != nil {
+		panic(err)
+	}
+	cv := doc.Root().FindElement("./EncryptedData/CipherData/CipherValue")
+	b := make([]byte, nbytes)
+	for i := range b {
+		b[i] = fill + byte(i)
+	}
+	cv.SetText(base64.StdEncoding.EncodeToString(b))
+	return &Node{Kind: kEnc, Cid: cidCounter, St: 1, Raw: elToString(doc.Root())}
+}
+
+// SetKeyInfoOdd writes a KeyInfo whose X509Certificate element has unusual content
+// (no character data at all, a comment, a child element, a processing instruction):
+// abstractly "certificate data that does not parse".
+func (s *Node) SetKeyInfoOdd(kind int) {
+	_, root := sigDoc(s)
+	if old := root.FindElement("./KeyInfo"); old != nil {
+		root.RemoveChild(old)
+	}
+	x := root.CreateElement("ds:KeyInfo").CreateElement("ds:X509Data").CreateElement("ds:X509Certificate")
+	switch kind {
+	case 1:
+		x.CreateComment("no certificate here")
+	case 2:
+		x.CreateElement("ds:Oops")
+	case 3:
+		x.CreateProcInst("pi", "x")
+	case 4:
+		x.CreateComment("c")
+		x.CreateText("AAAA")
+	}
+	s.KI, s.KICert = kiBad, 0
+	s.Raw = elToString(root)
 }
